@@ -59,9 +59,22 @@ def unit_list(fe):
             E.prove('units:single-flag-is-the-contexts', L.Iff(L.truth(single), L.truth(ctx.single)))
             fk = {}          # (C10-F1, sync UDP handler never admitting unit 0, was repaired: /repo fcf8570)
             E.prove('units:unit-0-is-accepted-when-broadcast-is-enabled', L.Implies(broadcast, L.Or(has(0), L.truth(single))), **fk)
+            # ... and nothing else is: an id nobody hosts (0 and 255 in the list make the framer accept EVERY unit) is not let through
+            hosted = lambda u: L.Or(*[u == i for i in ids]) if ids else False
+            E.prove('units:nothing-but-the-hosted-units-is-accepted(+0-under-broadcast)', L.And(*[L.Or(hosted(u), L.And(u == 0, L.truth(broadcast))) for u in ul]) if ul else True)
         fr = E.stub('framer', {'processIncomingPacket': pip, 'resetFrame': lambda: None})
         chunk = E.bytes('chunk', 1, 64)
-        if fe.startswith('sync'):
+        if fe.startswith('twisted'):
+            E.assume(L.Not(broadcast))               # Twisted has no broadcast option
+            ctl = E.new('pymodbus.device.ModbusControlBlock')
+            if fe == 'twisted.udp':
+                h = E.obj(S.TW + 'ModbusUdpProtocol', store=ctx, control=ctl, framer=fr, ignore_missing_slaves=False)
+                E.attempt(lambda: E.method(h, 'datagramReceived', chunk, ('peer', 502)))
+            else:
+                factory = E.obj(S.TW + 'ModbusServerFactory', store=ctx, control=ctl, ignore_missing_slaves=False)
+                h = E.obj(S.TW + 'ModbusTcpProtocol', factory=factory, framer=fr)
+                E.attempt(lambda: E.method(h, 'dataReceived', chunk))
+        elif fe.startswith('sync'):
             server = E.obj(S.SY + 'ModbusTcpServer', context=ctx, broadcast_enable=broadcast, ignore_missing_slaves=False)
             sock = E.stub('socket', {'recv': lambda k: chunk})
             req = (chunk, sock) if fe == 'sync.udp' else sock
@@ -103,7 +116,8 @@ def context_kept(E):
 
 def get_units():
     from . import store_contracts as STC
-    us = [STC.default_blocks_unit(PROP), Unit('%s/context.kept' % PROP, context_kept, [PROP], functions=[q for q, _, _ in SERVER_CTORS]), Unit('%s/validate_unit_id' % PROP, validate_unit_id, [PROP], functions=[FR + '._validate_unit_id'])]
+    from . import C04 as _C04
+    us = [STC.default_blocks_unit(PROP), Unit('%s/layout.blocks-own-their-storage' % PROP, _C04.storage_lemma, [PROP], functions=[STC.SEQ + '.__init__', STC.SEQ + '.setValues']), Unit('%s/context.kept' % PROP, context_kept, [PROP], functions=[q for q, _, _ in SERVER_CTORS]), Unit('%s/validate_unit_id' % PROP, validate_unit_id, [PROP], functions=[FR + '._validate_unit_id'])]
     for fe in S.FRONTENDS:
         us.append(Unit('%s/routing.%s' % (PROP, fe), S.serve_unicast(fe, PROP, clauses=('routing', 'absent')), [PROP], functions=S.FUNCS[fe]))
         if S.FRONTENDS[fe][2]:
@@ -116,4 +130,6 @@ def get_units():
             if fe == 'sync.udp':
                 ann.keep = ('socket', 'request')
             us.append(Unit('%s/unit_list.%s' % (PROP, fe), unit_list(fe), [PROP], functions=[hq], loops={(hq, 0): ann}))
+    us.append(Unit('%s/unit_list.twisted.tcp' % PROP, unit_list('twisted.tcp'), [PROP], functions=[S.TW + 'ModbusTcpProtocol.dataReceived']))
+    us.append(Unit('%s/unit_list.twisted.udp' % PROP, unit_list('twisted.udp'), [PROP], functions=[S.TW + 'ModbusUdpProtocol.datagramReceived']))
     return us
